@@ -81,6 +81,16 @@ def extension(ops, info, rng):
     if not f or not pts:
         return [], "none"
     x = rng.choice(pts)
+    fop = next((o for o in ops if o["op"] == "func" and o["out"] == f), None)
+    forward_only = fop is not None and fop.get("transpose_out") and \
+        not any(o.get("f") == fop["transpose_out"] for o in ops)
+    if fop is not None and fop.get("transpose_out") and rng.random() < (0.85 if forward_only else 0.4):
+        # a linear operator: one more (unused, bounded) sample of the adjoint
+        extra.append({"op": "newpoint", "out": "ext_u"})
+        extra.append({"op": "gradient", "out": "ext_w", "f": fop["transpose_out"], "x": "ext_u"})
+        extra.append({"op": "sq", "out": "ext_ue", "a": "ext_u"})
+        extra.append({"op": "cons", "out": "ext_uc", "lhs": "ext_ue", "rel": "<=", "rhs": 1.0, "target": info["P"]})
+        return extra, "adjoint_free"
     if kind == "repeat":
         extra.append({"op": "oracle", "out": ["ext_g", "ext_v"], "f": f, "x": x})
     elif kind == "alias":
@@ -173,6 +183,7 @@ class C04(Prop):
             # with an early solve the recorded samples themselves differ, which is outside the statement
             w = {k: v for k, v in W04.items() if k != "gd_qg"}
         b = templates.build_model(rng, weights=w, n=rng.choice([1, 2, 2, 3]),
+                                  template=("linear" if case == "extension" and rng.random() < 0.25 else None),
                                   decorations=[] if rng.random() < 0.7 else None)
         info = {k: v for k, v in b.info.items() if isinstance(v, (str, int, float))}
         info["P"] = b.P
